@@ -13,6 +13,7 @@ package main
 //	receipt   the fee of receipt i                                                         -> block-hash
 //	event     the data of the first event of receipt i                                     -> block-hash
 //	class     the definition of the i-th declared Sierra class                             -> class-hash
+//	          (round 6: also the definitions of classes i and i+1 exchanged)
 //	storage   the value written to the i-th contract, block hash recomputed                -> state
 //	nonce     the nonce of the i-th contract, block hash recomputed                        -> state
 //
@@ -301,6 +302,17 @@ func (w *wideRun) runClassFamily(p int, newSt bool, rng *lib.RNG) {
 			cls.ProgramHash = &ph
 			w.offerWide(wideCase{Procs: p, Family: "class", Size: n, Pos: pos, Kind: "class", NewSt: newSt}, c,
 				fmt.Sprintf("definition of declared class %d of %d changed (program hash)", pos, n), bi)
+		}
+		// round 6: two well-formed definitions EXCHANGED (keys, diff and block hash kept): every definition still hashes
+		// to SOME key of the list, none to its own — a check "every announced hash is backed by a definition" passes
+		if keys := sortedKeys(b.Classes); n >= 2 {
+			for pos := range keys {
+				c := b.Clone()
+				k0, k1 := keys[pos], keys[(pos+1)%n]
+				c.Classes[k0], c.Classes[k1] = c.Classes[k1], c.Classes[k0]
+				w.offerWide(wideCase{Procs: p, Family: "class", Size: n, Pos: pos, Kind: "class-exchange", NewSt: newSt}, c,
+					fmt.Sprintf("definitions of declared classes %d and %d of %d exchanged", pos, (pos+1)%n, n), bi)
+			}
 		}
 		if !w.storeValid(bi) {
 			return
